@@ -467,6 +467,16 @@ class SymExec(object):
             key = ('@sub', b, i)
             if key in st.env:
                 return st.env[key]
+            if b[0] == 'dict' and b[1] and all(k is not None and k[0] == 'const' for k, _ in b[1]):
+                if i[0] == 'const':
+                    for k_, v_ in b[1]:
+                        if k_ == i:
+                            return v_
+                else:
+                    out_ = ('sym', 'key-error', show(i))
+                    for k_, v_ in reversed(b[1]):
+                        out_ = ('ifexp', ('cmp', '==', i, k_), v_, out_)
+                    return out_
             return t
         if isinstance(n, ast.Slice):
             return ('slice', E(n.lower) if n.lower else None, E(n.upper) if n.upper else None,
@@ -487,6 +497,13 @@ class SymExec(object):
             t = ('call', f, tuple(args), kws)
             if f == ('name', 'list') and len(args) == 1 and not kws and args[0][0] in ('genexp', 'listcomp'):
                 return ('listcomp',) + args[0][1:]
+            if f[0] == 'attr' and f[2] == 'get' and f[1][0] == 'dict' and 1 <= len(args) <= 2 and not kws \
+                    and all(k is not None and k[0] == 'const' for k, _ in f[1][1]):
+                # lookup in a literal table = the chain of comparisons it abbreviates
+                out_ = args[1] if len(args) == 2 else ('const', None)
+                for k_, v_ in reversed(f[1][1]):
+                    out_ = ('ifexp', ('cmp', '==', args[0], k_), v_, out_)
+                return out_
             if f[0] == 'attr' and f[2] == 'format' and f[1][0] == 'const' and isinstance(f[1][1], str):
                 ft = format_call(f[1][1], tuple(args), kws)
                 if ft is not None:
@@ -880,6 +897,11 @@ class SymExec(object):
             yield st, 'fall'
             return
         s, rest = stmts[0], stmts[1:]
+        if self.fold_loops and isinstance(s, ast.For) and rest and isinstance(rest[0], ast.Return):
+            r = self._fold_search_loop(s, rest[0], st)
+            if r is not None:
+                yield r
+                return
         for st2, out in self.stmt(s, st):
             if out == 'fall':
                 for r in self.block(rest, st2):
@@ -1093,6 +1115,50 @@ class SymExec(object):
                             continue
                         for r in self.block(body, st3):
                             yield r
+
+    def _fold_search_loop(self, s, ret, st):
+        """for x in it: [locals]; if c: return K      followed by      return not-K        (K a boolean constant)
+        is  all(not c for x in it)  /  any(c for x in it):  bind the result to that term instead of walking iterations"""
+        if s.orelse or not isinstance(ret.value, ast.Constant) or not isinstance(ret.value.value, bool):
+            return None
+        body = list(s.body)
+        pre = []
+        while body and isinstance(body[0], (ast.Assign, ast.AnnAssign)):
+            x = body.pop(0)
+            tg = x.targets if isinstance(x, ast.Assign) else [x.target]
+            if not all(isinstance(t, ast.Name) or (isinstance(t, ast.Tuple) and all(isinstance(e, ast.Name) for e in t.elts)) for t in tg):
+                return None
+            pre.append(x)
+        if len(body) != 1 or not isinstance(body[0], ast.If) or body[0].orelse:
+            return None
+        iff = body[0]
+        if len(iff.body) != 1 or not isinstance(iff.body[0], ast.Return) or not isinstance(iff.body[0].value, ast.Constant) \
+                or not isinstance(iff.body[0].value.value, bool) or iff.body[0].value.value == ret.value.value:
+            return None
+        inner_k = iff.body[0].value.value
+        sub = st.copy()
+        mark = len(st.events)
+        it = self.ev(s.iter, sub)
+        self.bind(s.target, ('elem', it, s.iter.lineno), sub, s)
+        for x in pre:
+            if isinstance(x, ast.Assign):
+                v = self.ev(x.value, sub)
+                for t in x.targets:
+                    self.bind(t, v, sub, x)
+            elif x.value is not None:
+                self.bind(x.target, self.ev(x.value, sub), sub, x)
+        c = self.ev(iff.test, sub)
+        for e in sub.events[mark:]:
+            st.events.append(('in-comp',) + tuple(e))
+        st.data = sub.data
+        if inner_k:
+            val = ('call', ('name', 'any'), (mk_comp('genexp', c, ((it, ()),)),), ())
+        else:
+            val = ('call', ('name', 'all'), (mk_comp('genexp', ('unop', 'not', c), ((it, ()),)),), ())
+        st.ret = val
+        st.events.append(('loop-folded', it, val, s))
+        st.events.append(('return', val, ret))
+        return st, 'return'
 
     def _fold_loop(self, s, st):
         """a `for` loop whose only effect is appending to one list that is still empty is the comprehension it spells
